@@ -588,10 +588,24 @@ func (s *Stream) CloseRead() {
 	} else {
 		s.inclosed.set()
 	}
-	discarded := s.in.end - s.in.start
+	// Drop the fast-path read buffer: its bytes were already returned to connection flow
+	// control when Read moved them there, and a stale s.inbufoff applied by a later Read
+	// would push s.in.start and s.in.end past the data actually received.
+	discarded := s.in.end - s.in.start - s.discardInbuf()
 	s.in.discardBefore(s.in.end)
 	s.inUnlock()
 	s.conn.handleStreamBytesReadOffLoop(discarded) // must be done with ingate unlocked
+}
+
+// discardInbuf empties the fast-path read buffer and returns the number of bytes it held
+// (consumed or not). The caller must hold ingate.
+func (s *Stream) discardInbuf() int64 {
+	s.inbufmu.Lock()
+	defer s.inbufmu.Unlock()
+	n := int64(len(s.inbuf))
+	s.inbuf = nil
+	s.inbufoff = 0
+	return n
 }
 
 // CloseWrite aborts writes on the stream.
@@ -848,7 +862,7 @@ func (s *Stream) handleReset(code uint64, finalSize int64) error {
 			return err
 		}
 	}
-	s.conn.handleStreamBytesReadOnLoop(finalSize - s.in.start)
+	s.conn.handleStreamBytesReadOnLoop(finalSize - s.in.start - s.discardInbuf())
 	s.in.discardBefore(s.in.end)
 	s.inresetcode = int64(code)
 	s.insize = finalSize
